@@ -6,5 +6,13 @@ class Plugin(HistPlugin):
     id = 'C08'
     extra_import = 'HistProps HistPropCheck'
     check_fn = 'c08_check'
+    weights = {'insert_one': 6, 'insert_many': 3, 'update': 10, 'replace': 4, 'delete': 1, 'fam': 4,
+               'bulk': 3, 'create_index': 3}
+    rule = ('failure injection: histories whose updates carry 1-4 operators, a failing operator ($pop with '
+            'a bad argument, $inc of a string, $push with an unknown clause, $rename with dots, _id '
+            'changes, unique-key violations, invalid replacement) spliced at every position; '
+            'insert_many and bulk_write batches with failing elements, ordered and unordered; the '
+            'complete state (documents, order, index information) before and after every failing call is '
+            'compared. Non-trivial = at least one single-document write raises; distinct by canonical JSON.')
     FINDING_BITS = 1 | 8
     UNDECIDED_BITS = 2 | 4 | 16
